@@ -8,7 +8,8 @@ Oracle (independent of the model): a shadow Python list.
 import itertools
 from . import common
 
-CONFIGS = [(o, u, k) for o in (True, False) for u in (True, False) for k in ('attr', 'ref')]
+CONFIGS = [(o, u, k) for o in (True, False) for u in (True, False) for k in ('attr', 'ref')] + \
+    [(o, True, k) for o in (True, False) for k in ('cont', 'opp')]     # containment / bidirectional ends are unique
 _mm = {}
 
 
@@ -22,8 +23,15 @@ def metamodel():
         name = f"{'o' if o else 'n'}{'u' if u else 'd'}_{k}"
         if k == 'attr':
             A.eStructuralFeatures.append(EAttribute(name, EInt, upper=-1, ordered=o, unique=u))
-        else:
+        elif k == 'ref':
             A.eStructuralFeatures.append(EReference(name, B, upper=-1, ordered=o, unique=u))
+        elif k == 'cont':
+            A.eStructuralFeatures.append(EReference(name, B, upper=-1, ordered=o, unique=u, containment=True))
+        else:
+            r = EReference(name, B, upper=-1, ordered=o, unique=u)
+            A.eStructuralFeatures.append(r)
+            back = EReference('back_' + name, A, eOpposite=r)
+            B.eStructuralFeatures.append(back)
     _mm.update(A=A, B=B)
     return _mm
 
